@@ -2,6 +2,9 @@
 #include <algorithm>
 #include <array>
 #include <cstdint>
+#include <functional>
+#include <memory>
+#include <string>
 #include <vector>
 
 #include <covfie/core/utility/nd_map.hpp>
@@ -157,6 +160,134 @@ static void wrapping_counts()
     one<T, 2>({two - 1, two + 1}, "control");
 }
 
+// The callback in every form a caller may hand over: a temporary closure that OWNS state by value (a vector, a long
+// string, a shared_ptr), the same closure as a named object, moved, wrapped in std::function (lvalue and temporary),
+// and a functor object.  Whatever the form, every tuple of the box is delivered exactly once to a callback whose
+// owned state is intact (a callback object that was moved from between two calls has lost it).
+template <typename T, std::size_t N>
+struct Collector {
+    using tuple_t = covfie::array::array<T, N>;
+    std::shared_ptr<std::vector<std::array<uint64_t, N>>> log;
+    std::vector<uint64_t> guard;
+    std::string label;
+    uint64_t * lost;
+    void operator()(tuple_t t)
+    {
+        if (!log || guard.size() != 9 || guard[8] != 0xC19C19ull || label.size() != 48) {
+            ++*lost;
+            return;
+        }
+        std::array<uint64_t, N> a;
+        for (std::size_t k = 0; k < N; ++k) a[k] = (uint64_t)t[k];
+        log->push_back(a);
+    }
+};
+
+template <typename T, std::size_t N>
+static void forms_one(const std::array<uint64_t, N> & ext)
+{
+    using tuple_t = covfie::array::array<T, N>;
+    std::string name = std::string("nd_map<") + vh::tn<T>() + "," + std::to_string(N) + ">:callable-forms";
+    if (!vh::selected(name)) return;
+    tuple_t s;
+    uint64_t prod = 1;
+    for (std::size_t k = 0; k < N; ++k) {
+        s[k] = (T)ext[k];
+        prod *= ext[k];
+    }
+    static const char * const form_names[] = {"temporary closure owning its state", "named closure", "moved closure", "std::function lvalue",
+                                              "std::function temporary", "functor object", "temporary functor", "const std::function"};
+    for (int form = 0; form < 8; ++form) {
+        vh::set_case("%s extents=%s form=%s", name.c_str(), vh::jarr(ext, N).c_str(), form_names[form]);
+        auto log = std::make_shared<std::vector<std::array<uint64_t, N>>>();
+        uint64_t lost = 0;
+        std::vector<uint64_t> guard(9, 7);
+        guard[8] = 0xC19C19ull;
+        std::string label(48, 'x');
+        auto make = [&]() {
+            return [log, guard, label, lp = &lost](tuple_t t) mutable {
+                if (!log || guard.size() != 9 || guard[8] != 0xC19C19ull || label.size() != 48) {
+                    ++*lp;
+                    return;
+                }
+                std::array<uint64_t, N> a;
+                for (std::size_t k = 0; k < N; ++k) a[k] = (uint64_t)t[k];
+                log->push_back(a);
+            };
+        };
+        switch (form) {
+        case 0: covfie::utility::nd_map<tuple_t>(make(), s); break;
+        case 1: {
+            auto cb = make();
+            covfie::utility::nd_map<tuple_t>(cb, s);
+            break;
+        }
+        case 2: {
+            auto cb = make();
+            covfie::utility::nd_map<tuple_t>(std::move(cb), s);
+            break;
+        }
+        case 3: {
+            std::function<void(tuple_t)> fn = make();
+            covfie::utility::nd_map<tuple_t>(fn, s);
+            break;
+        }
+        case 4: covfie::utility::nd_map<tuple_t>(std::function<void(tuple_t)>(make()), s); break;
+        case 5: {
+            Collector<T, N> c{log, guard, label, &lost};
+            covfie::utility::nd_map<tuple_t>(c, s);
+            break;
+        }
+        case 6: covfie::utility::nd_map<tuple_t>(Collector<T, N>{log, guard, label, &lost}, s); break;
+        case 7: {
+            const std::function<void(tuple_t)> fn = make();
+            covfie::utility::nd_map<tuple_t>(fn, s);
+            break;
+        }
+        }
+        vh::ev();
+        vh::stat("walks_by_callable_form");
+        bool alleq = true;
+        for (std::size_t k = 1; k < N; ++k) alleq = alleq && ext[k] == ext[0];
+        if (N >= 2 && !alleq) vh::nontrivial(vh::mix(vh::fnv(name, vh::fnv(ext.data(), sizeof(uint64_t) * N)), form));
+        std::string d = "extents=" + vh::jarr(ext, N) + " form=" + form_names[form];
+        if (lost) {
+            vh::viol(name + ":callback-state-lost", d + ": " + std::to_string(lost) + " calls reached a callback object whose owned state was gone");
+            continue;
+        }
+        if (log->size() != prod) {
+            vh::viol(name + ":count", d + " callbacks=" + std::to_string(log->size()) + " expected=" + std::to_string(prod));
+            continue;
+        }
+        std::sort(log->begin(), log->end());
+        bool bad = std::adjacent_find(log->begin(), log->end()) != log->end();
+        for (auto & a : *log)
+            for (std::size_t k = 0; k < N; ++k) bad = bad || !(a[k] < ext[k]);
+        if (bad) vh::viol(name + ":not-the-box", d);
+    }
+}
+
+template <typename T, std::size_t N>
+static void forms(vh::Rng & rng, unsigned nrandom)
+{
+    std::array<uint64_t, N> e;
+    // every extent vector over {0,1,2,3}, then random ones
+    e.fill(0);
+    for (;;) {
+        forms_one<T, N>(e);
+        std::size_t k = 0;
+        while (k < N && ++e[k] > 3) {
+            e[k] = 0;
+            ++k;
+        }
+        if (k == N) break;
+    }
+    for (unsigned r = 0; r < nrandom; ++r) {
+        for (std::size_t k = 0; k < N; ++k) e[k] = 1 + rng.below(N <= 2 ? 40 : 7);
+        forms_one<T, N>(e);
+    }
+}
+
 int main(int argc, char ** argv)
 {
     vh::init(argc, argv);
@@ -199,5 +330,11 @@ int main(int argc, char ** argv)
     sweep<unsigned, 4>(th ? 5 : 3, rng, nr / 4);
     sweep<unsigned char, 3>(B, rng, nr / 4);
     sweep<long, 5>(th ? 4 : 3, rng, nr / 4);
+    forms<std::size_t, 1>(rng, nr / 4);
+    forms<std::size_t, 2>(rng, nr / 2);
+    forms<std::size_t, 3>(rng, nr / 2);
+    forms<std::size_t, 4>(rng, nr / 4);
+    forms<int, 2>(rng, nr / 4);
+    forms<unsigned, 3>(rng, nr / 4);
     return vh::finish();
 }
